@@ -11,8 +11,13 @@ package mmap
 // identifyVectorsToMove -> snapshot -> FindFreeSlots -> moveBatch ->
 // tryDropEmptyChunks (optionally with a FreeSlot / fresh AllocSlot landing
 // between the snapshot and moveBatch, which is the window moveBatch's
-// re-validation exists for), GetState->LoadState, and
-// GetState->Close->NewVectorArena->LoadState.
+// re-validation exists for), GetState->LoadState,
+// GetState->Close->NewVectorArena->LoadState, and the snapshot life cycle of
+// core.Snapshot(): "capture" (GetState; the value is HELD while later
+// operations run, as Snapshot() holds it until the gob encoder gets to it) and
+// "restore" (crash-restart to the captured point: the held value is persisted
+// with gob, the arena is closed and reopened on the same files, LoadState of
+// the decoded value; see c18Capture / restore()).
 //
 // Invariants after every step (and after a final "drain" that allocates
 // fresh ids until every recycled slot has been handed out again, and a final
@@ -23,6 +28,21 @@ package mmap
 //   I4 the "node pointer" (the slice a caller keeps, refreshed through
 //      NodePointerUpdater exactly like hnsw.Index.UpdateNodePointer) aliases
 //      the id's current slot and reads the pattern.
+// While a captured ArenaState is held, additionally after every step:
+//   I5 the held value still equals the deep copy taken when GetState returned
+//      (GetState: "Create copies to prevent external mutation"; Snapshot()
+//      encodes the value after the arena lock is released, writers may run).
+// After a restore of the captured state (files are NEWER than the state):
+//   I6 every id that was live at capture time maps to the slot it had then,
+//      these slots are pairwise distinct, and the restored free list contains
+//      none of them;
+//   I7 an id that was never freed or moved since the capture reads the last
+//      pattern it wrote (bytes of ids whose capture-time slot was released in
+//      between may legitimately have been overwritten by a later owner: they
+//      are re-written by the harness, as the AOF replay would, not asserted);
+//   I8 fresh ids allocated until the restored free list is exhausted never
+//      receive a slot of a capture-time id and writing them changes no
+//      capture-time id's bytes (I1/I2 after every such allocation).
 //
 // The production chunk is 64 MiB; NewVectorArena derives vecsPerChk from it.
 // To reach several chunks cheaply the unexported field vecsPerChk is lowered
@@ -32,6 +52,7 @@ package mmap
 
 import (
 	"bytes"
+	"encoding/gob"
 	"fmt"
 	"io"
 	"log"
@@ -47,12 +68,13 @@ import (
 )
 
 type c18AOp struct {
-	Op     string `json:"op"` // alloc | free | write | cycle | step | reload | reopen
+	Op     string `json:"op"` // alloc | free | write | cycle | step | reload | reopen | capture | restore
 	ID     uint32 `json:"id,omitempty"`
 	Seed   uint32 `json:"seed,omitempty"`
 	Chunk  int    `json:"chunk,omitempty"`  // step: chunk selector (mod number of chunks); -1 = one batch in every chunk
 	Inter  string `json:"inter,omitempty"`  // step: "", "free" (free a batch member), "realloc" (free it and allocate+write the same id again), "write" (overwrite a batch member), "alloc" (allocate+write a fresh id)
 	Victim int    `json:"victim,omitempty"` // step/free: index into the batch (mod len)
+	Keep   bool   `json:"keep,omitempty"`   // restore: the fresh ids of the drain stay live (otherwise they are freed again)
 }
 
 type c18ACase struct {
@@ -118,9 +140,109 @@ type c18Runner struct {
 	dropped       int
 	staleSkipped  int
 	freedAny      bool
+
+	// held capture (nil = none) and its evidence
+	cap               *c18Capture
+	capHeldOps        int // checks evaluated while a capture was held (one per later op / drain step)
+	capNonEmptyFree   int // captures whose FreeSlots was not empty
+	capLiveRewritten  int // checks at which the arena's LIVE free list differed from the captured one inside the captured length (what a shared backing array would have leaked into the capture)
+	restores          int
+	restoresUnstable  int // restores at which some capture-time id had been freed or moved since the capture
+	restoreDrainSlots int // free slots of restored states handed out again
 }
 
 type c18Harness struct{ msg string }
+
+// c18Capture is what a snapshotter holds between GetState and the moment the
+// value is encoded, plus the harness's own record of that moment.
+type c18Capture struct {
+	atOp   int
+	checks int
+	held   ArenaState        // exactly what GetState returned; never written by the harness
+	copy   ArenaState        // independent deep copy taken when GetState returned
+	blob   []byte            // gob encoding of the value at that moment (what Snapshot() would persist)
+	model  map[uint32]uint32 // harness model at capture time: live id -> pattern seed
+	slot   map[uint32]uint32 // harness model at capture time: live id -> physical slot
+}
+
+func c18CloneState(st ArenaState) ArenaState {
+	cp := st // scalar fields
+	cp.SlotTable = append(make([]uint32, 0, len(st.SlotTable)), st.SlotTable...)
+	cp.FreeSlots = append(make([]uint32, 0, len(st.FreeSlots)), st.FreeSlots...)
+	return cp
+}
+
+func c18GobState(st ArenaState) ([]byte, error) {
+	var buf bytes.Buffer
+	if err := gob.NewEncoder(&buf).Encode(st); err != nil {
+		return nil, err
+	}
+	return buf.Bytes(), nil
+}
+
+// c18StateDiff describes the first difference between the state as it was
+// (was) and as it is now (now); "" if equal.
+func c18StateDiff(was, now ArenaState) string {
+	cmp := func(name string, a, b []uint32) string {
+		if len(a) != len(b) {
+			return fmt.Sprintf("%s had %d entries and now has %d", name, len(a), len(b))
+		}
+		for i := range a {
+			if a[i] != b[i] {
+				return fmt.Sprintf("%s[%d] was %d and is now %d", name, i, a[i], b[i])
+			}
+		}
+		return ""
+	}
+	if m := cmp("FreeSlots", was.FreeSlots, now.FreeSlots); m != "" {
+		return m
+	}
+	if m := cmp("SlotTable", was.SlotTable, now.SlotTable); m != "" {
+		return m
+	}
+	if was.NextPhysSlot != now.NextPhysSlot {
+		return fmt.Sprintf("NextPhysSlot was %d and is now %d", was.NextPhysSlot, now.NextPhysSlot)
+	}
+	return ""
+}
+
+// changed evaluates I5.
+func (cp *c18Capture) changed() string {
+	d := c18StateDiff(cp.copy, cp.held)
+	if d == "" { // any other (future) exported field: what would be persisted now must be what would have been persisted then
+		if b, err := c18GobState(cp.held); err != nil {
+			d = fmt.Sprintf("it can no longer be gob-encoded: %v", err)
+		} else if !bytes.Equal(b, cp.blob) {
+			d = "its gob encoding differs from the one taken when GetState returned"
+		}
+	}
+	if d == "" {
+		return ""
+	}
+	return fmt.Sprintf("the ArenaState captured by op %d changed after GetState returned: %s (GetState returns copies; core.Snapshot() encodes the value after the arena lock is released)", cp.atOp, d)
+}
+
+// c18StateSelfCheck: an ArenaState is a consistent cut of the allocator - no
+// physical slot is assigned to two ids, and no slot on its free list is
+// assigned to an id by its own slot table.
+func c18StateSelfCheck(st ArenaState) string {
+	owner := make(map[uint32]uint32, len(st.SlotTable))
+	for id, s := range st.SlotTable {
+		if s == UnallocatedSlot {
+			continue
+		}
+		if o, dup := owner[s]; dup {
+			return fmt.Sprintf("its slot table assigns physical slot %d to id %d and to id %d", s, o, id)
+		}
+		owner[s] = uint32(id)
+	}
+	for i, s := range st.FreeSlots {
+		if o, ok := owner[s]; ok {
+			return fmt.Sprintf("FreeSlots[%d] lists physical slot %d as free although its own slot table assigns that slot to id %d", i, s, o)
+		}
+	}
+	return ""
+}
 
 func (r *c18Runner) open() string {
 	va, err := NewVectorArena(r.dir, r.vecSize, r.vecSize, PrecInt8)
@@ -228,6 +350,28 @@ func (r *c18Runner) check(when string) string {
 		p := r.upd.ptr[id].Load()
 		if p == nil || c18Addr(*p) != c18Addr(b) {
 			return fmt.Sprintf("%s: the node pointer of id %d does not alias its current slot (relocation without UpdateNodePointer?)", when, id)
+		}
+	}
+	// I5
+	if cp := r.cap; cp != nil {
+		if cp.checks > 0 { // the first check belongs to the capture op itself
+			r.capHeldOps++
+		}
+		cp.checks++
+		va.slotMu.RLock()
+		n := len(cp.copy.FreeSlots)
+		if len(va.freeSlots) < n {
+			n = len(va.freeSlots)
+		}
+		for i := 0; i < n; i++ {
+			if va.freeSlots[i] != cp.copy.FreeSlots[i] {
+				r.capLiveRewritten++
+				break
+			}
+		}
+		va.slotMu.RUnlock()
+		if m := cp.changed(); m != "" {
+			return when + ": " + m
 		}
 	}
 	return ""
@@ -452,6 +596,198 @@ func (r *c18Runner) reopen() string {
 	return ""
 }
 
+// capture: GetState, and keep the value.
+func (r *c18Runner) capture(at int) string {
+	va := r.va
+	slot := make(map[uint32]uint32, len(r.model))
+	model := make(map[uint32]uint32, len(r.model))
+	va.slotMu.RLock()
+	for id, seed := range r.model {
+		model[id] = seed
+		slot[id] = va.slotTable[id] // check() of the previous step established that every model id has a slot
+	}
+	va.slotMu.RUnlock()
+	st := va.GetState()
+	cp := &c18Capture{atOp: at, held: st, copy: c18CloneState(st), model: model, slot: slot}
+	b, err := c18GobState(st)
+	if err != nil {
+		return fmt.Sprintf("the value returned by GetState cannot be gob-encoded: %v", err)
+	}
+	cp.blob = b
+	// the captured value is the allocator state of this moment
+	for _, id := range r.sortedLive() {
+		if int(id) >= len(st.SlotTable) || st.SlotTable[id] != slot[id] {
+			got := "nothing"
+			if int(id) < len(st.SlotTable) && st.SlotTable[id] != UnallocatedSlot {
+				got = fmt.Sprintf("slot %d", st.SlotTable[id])
+			}
+			return fmt.Sprintf("GetState reports %s for live id %d which occupies physical slot %d", got, id, slot[id])
+		}
+	}
+	if m := c18StateSelfCheck(st); m != "" {
+		return "GetState returned an inconsistent state: " + m
+	}
+	if len(st.FreeSlots) > 0 {
+		r.capNonEmptyFree++
+	}
+	r.cap = cp
+	return ""
+}
+
+// restore models a crash and a restart from the snapshot that holds the
+// captured state: whatever the held value is NOW is what the encoder writes,
+// the arena is closed, reopened on the same (newer) files, and LoadState gets
+// the decoded value. The capture stays held (a second crash restarts from the
+// same snapshot again).
+func (r *c18Runner) restore(op c18AOp) string {
+	cp := r.cap
+	if cp == nil {
+		return ""
+	}
+	when := fmt.Sprintf("after restoring the state captured by op %d (Close, reopen, LoadState)", cp.atOp)
+	// ids of the capture that since then never left their slot: their bytes
+	// on file are their current pattern (I1 of the previous step)
+	ids := make([]uint32, 0, len(cp.slot))
+	for id := range cp.slot {
+		ids = append(ids, id)
+	}
+	sort.Slice(ids, func(i, j int) bool { return ids[i] < ids[j] })
+	stable := map[uint32]uint32{} // id -> seed of the pattern it holds now
+	r.va.slotMu.RLock()
+	for _, id := range ids {
+		if seed, live := r.model[id]; live && int(id) < len(r.va.slotTable) && r.va.slotTable[id] == cp.slot[id] {
+			stable[id] = seed
+		}
+	}
+	r.va.slotMu.RUnlock()
+	if len(stable) < len(ids) {
+		r.restoresUnstable++
+	}
+	blob, err := c18GobState(cp.held)
+	if err != nil {
+		return fmt.Sprintf("the captured ArenaState cannot be gob-encoded: %v", err)
+	}
+	var st ArenaState
+	if err := gob.NewDecoder(bytes.NewReader(blob)).Decode(&st); err != nil {
+		return fmt.Sprintf("the gob-encoded ArenaState cannot be decoded: %v", err)
+	}
+	if err := r.va.Close(); err != nil {
+		return fmt.Sprintf("Close failed: %v", err)
+	}
+	if m := r.open(); m != "" {
+		return m
+	}
+	r.va.LoadState(st)
+	r.reopens++
+	r.restores++
+	va := r.va
+	// I6 (white box)
+	msg := ""
+	va.slotMu.RLock()
+	owner := make(map[uint32]uint32, len(ids))
+	for _, id := range ids {
+		if int(id) >= len(va.slotTable) || va.slotTable[id] != cp.slot[id] {
+			msg = fmt.Sprintf("%s: id %d does not map to physical slot %d which it occupied when the state was captured", when, id, cp.slot[id])
+			break
+		}
+		if o, dup := owner[cp.slot[id]]; dup {
+			msg = fmt.Sprintf("%s: ids %d and %d share physical slot %d", when, o, id, cp.slot[id])
+			break
+		}
+		owner[cp.slot[id]] = id
+	}
+	if msg == "" {
+		for i, s := range va.freeSlots {
+			if o, ok := owner[s]; ok {
+				msg = fmt.Sprintf("%s: the restored free list (entry %d) offers physical slot %d although the restored slot table assigns it to id %d, which was live when the state was captured: the next AllocSlot hands it to a second id", when, i, s, o)
+				break
+			}
+		}
+	}
+	nFree := len(va.freeSlots)
+	va.slotMu.RUnlock()
+	if msg != "" {
+		return msg
+	}
+	// the model goes back to the capture: later ids are forgotten
+	r.model = map[uint32]uint32{}
+	r.upd.ptr = map[uint32]*atomic.Pointer[[]byte]{}
+	for _, id := range ids { // GetBytes re-creates chunk files dropped since the capture
+		r.model[id] = cp.model[id]
+		if m := r.relink(id); m != "" {
+			return when + ": " + m
+		}
+	}
+	// I7, before the harness writes anything
+	for _, id := range ids {
+		seed, ok := stable[id]
+		if !ok {
+			continue
+		}
+		r.model[id] = seed
+		b, err := va.GetBytes(id)
+		if err != nil {
+			return fmt.Sprintf("%s: GetBytes(%d) failed: %v", when, id, err)
+		}
+		if want := c18Pattern(id, seed, r.vecSize); !bytes.Equal(b, want) {
+			return fmt.Sprintf("%s: id %d, never freed or moved since the capture, reads %s, stored %s", when, id, c18Hex(b), c18Hex(want))
+		}
+	}
+	// ids whose slot was released since the capture: content is whatever a
+	// later owner left there; the vector is written again
+	for _, id := range ids {
+		if _, ok := stable[id]; ok {
+			continue
+		}
+		b, err := va.GetBytes(id)
+		if err != nil {
+			return fmt.Sprintf("%s: GetBytes(%d) failed: %v", when, id, err)
+		}
+		if len(b) != r.vecSize {
+			return fmt.Sprintf("%s: GetBytes(%d) returned %d bytes, vector size is %d", when, id, len(b), r.vecSize)
+		}
+		copy(b, c18Pattern(id, cp.model[id], r.vecSize))
+	}
+	if m := r.check(when); m != "" {
+		return m
+	}
+	// I8: drain the restored free list (and two slots past it)
+	k := nFree + 2
+	if k > 200 {
+		k = 200
+	}
+	var fresh []uint32
+	for i := 0; i < k; i++ {
+		id := r.nextNew
+		r.nextNew++
+		if m := r.allocWrite(id, uint32(i)*2246822519+uint32(cp.atOp)); m != "" {
+			return fmt.Sprintf("%s, drain alloc %d: %s", when, i, m)
+		}
+		fresh = append(fresh, id)
+		va.slotMu.RLock()
+		s := va.slotTable[id]
+		va.slotMu.RUnlock()
+		if o, taken := owner[s]; taken {
+			return fmt.Sprintf("%s: AllocSlot gave fresh id %d physical slot %d, which belongs to id %d (live when the state was captured): two live vectors share storage", when, id, s, o)
+		}
+		if i < nFree {
+			r.restoreDrainSlots++
+		}
+		if m := r.check(fmt.Sprintf("%s, while re-allocating every free slot of the restored state (fresh id %d)", when, id)); m != "" {
+			return m
+		}
+	}
+	if !op.Keep {
+		for _, id := range fresh {
+			va.FreeSlot(id)
+			delete(r.model, id)
+			delete(r.upd.ptr, id)
+		}
+		r.freedAny = true
+	}
+	return ""
+}
+
 func (r *c18Runner) apply(op c18AOp) (string, *c18Harness) {
 	switch op.Op {
 	case "alloc":
@@ -481,6 +817,8 @@ func (r *c18Runner) apply(op c18AOp) (string, *c18Harness) {
 		r.va.LoadState(r.va.GetState())
 	case "reopen":
 		return r.reopen(), nil
+	case "restore":
+		return r.restore(op), nil
 	}
 	return "", nil
 }
@@ -512,7 +850,13 @@ func c18RunACase(c c18ACase, deadline time.Duration, ev *c18Runner) (msg string,
 		return m, nil
 	}
 	for i, op := range c.Ops {
-		m, h := r.apply(op)
+		var m string
+		var h *c18Harness
+		if op.Op == "capture" {
+			m = r.capture(i)
+		} else {
+			m, h = r.apply(op)
+		}
 		if h != nil {
 			return "", h
 		}
@@ -561,6 +905,8 @@ func c18OpString(op c18AOp) string {
 		return fmt.Sprintf("free(id=%d)", op.ID)
 	case "step":
 		return fmt.Sprintf("step(chunk=%d,inter=%q,victim=%d)", op.Chunk, op.Inter, op.Victim)
+	case "restore":
+		return fmt.Sprintf("restore(keep=%v)", op.Keep)
 	}
 	return op.Op
 }
@@ -578,6 +924,7 @@ func c18GenACase(col *verifkit.Collector) *rapid.Generator[c18ACase] {
 			universe = 6
 		}
 		id := func() uint32 { return uint32(rapid.IntRange(0, universe-1).Draw(rt, "id")) }
+		held := false // a capture op was generated: restore ops make sense
 		pre := rapid.IntRange(0, universe).Draw(rt, "prefill")
 		for i := 0; i < pre; i++ {
 			c.Ops = append(c.Ops, c18AOp{Op: "alloc", ID: uint32(i), Seed: uint32(i)})
@@ -587,13 +934,29 @@ func c18GenACase(col *verifkit.Collector) *rapid.Generator[c18ACase] {
 			for _, h := range rapid.SliceOfNDistinct(rapid.IntRange(0, pre-1), nf, nf, func(x int) int { return x }).Draw(rt, "holeids") {
 				c.Ops = append(c.Ops, c18AOp{Op: "free", ID: uint32(h)})
 			}
+			// a snapshot taken while the free list is populated: before the
+			// sweep (which pops and pushes), after it, or not at all
+			capAt := rapid.IntRange(0, 3).Draw(rt, "capture_at_holes")
+			if capAt == 1 || capAt == 2 {
+				c.Ops = append(c.Ops, c18AOp{Op: "capture"})
+				held = true
+			}
 			c.Ops = append(c.Ops, c18AOp{Op: "step", Chunk: -1})
+			if capAt == 3 {
+				c.Ops = append(c.Ops, c18AOp{Op: "capture"})
+				held = true
+			}
 		}
 		n := rapid.IntRange(1, 40).Draw(rt, "nops")
 		cycles := 0
 		for i := 0; i < n; i++ {
 			var op c18AOp
-			switch k := rapid.IntRange(0, 19).Draw(rt, "kind"); {
+			switch k := rapid.IntRange(0, 23).Draw(rt, "kind"); {
+			case k >= 22 && held:
+				op = c18AOp{Op: "restore", Keep: rapid.Bool().Draw(rt, "keep")}
+			case k >= 20:
+				op = c18AOp{Op: "capture"}
+				held = true
 			case k < 5:
 				op = c18AOp{Op: "alloc", ID: id(), Seed: rapid.Uint32().Draw(rt, "seed")}
 			case k < 10:
@@ -683,11 +1046,29 @@ func c18ALabels(c c18ACase, r *c18Runner) (bool, []string) {
 			break
 		}
 	}
+	if r.capHeldOps > 0 {
+		labels = append(labels, "capture-held-across-ops")
+	}
+	if r.capNonEmptyFree > 0 {
+		labels = append(labels, "captured-state-with-nonempty-freelist")
+	}
+	if r.capLiveRewritten > 0 {
+		labels = append(labels, "live-freelist-rewritten-inside-the-captured-length-while-held")
+	}
+	if r.restores > 0 {
+		labels = append(labels, "restore-of-captured-state")
+	}
+	if r.restoresUnstable > 0 {
+		labels = append(labels, "restore-after-a-captured-id-was-freed-or-moved")
+	}
+	if r.restoreDrainSlots > 0 {
+		labels = append(labels, "restored-freelist-drained")
+	}
 	nt := r.maxChunk >= 2 && r.reuse > 0 && (r.relocations > 0 || r.reopens > 1)
 	return nt, labels
 }
 
-const c18ARule = "rapid: vector size from {1,3,8,24,64,100,512,4096} bytes, vectors per chunk lowered to {1,2,3,4,8} (64 MiB sparse chunk files), id universe 3-6 chunks wide; history = prefill allocs [+ a generated set of frees and one compaction sweep] + 1-40 ops from alloc(+write) / alloc of a live id / free / overwrite / deterministic compaction step in one chunk or sweep over all chunks (identifyVectorsToMove->snapshot->FindFreeSlots->[nothing | FreeSlot of a batch member | FreeSlot + re-alloc/write of a batch member | overwrite of a batch member | alloc of a fresh id]->moveBatch->tryDropEmptyChunks) / real RunCycle (<=2 per case, started compactor, deadline then Stop()) / GetState->LoadState / GetState->Close->reopen->LoadState; then a drain (fresh allocs until every free slot was handed out again) and a final close/reopen; oracle after every step: every live id reads its own pattern, live physical slots pairwise distinct, no live id in a missing/dropped chunk, the caller's node pointer aliases the current slot; non-trivial = live ids reached >=3 chunks AND a freed slot was reused AND (a vector was relocated OR the arena was reopened mid-history)"
+const c18ARule = "rapid: vector size from {1,3,8,24,64,100,512,4096} bytes, vectors per chunk lowered to {1,2,3,4,8} (64 MiB sparse chunk files), id universe 3-6 chunks wide; history = prefill allocs [+ a generated set of frees and one compaction sweep] + 1-40 ops from alloc(+write) / alloc of a live id / free / overwrite / deterministic compaction step in one chunk or sweep over all chunks (identifyVectorsToMove->snapshot->FindFreeSlots->[nothing | FreeSlot of a batch member | FreeSlot + re-alloc/write of a batch member | overwrite of a batch member | alloc of a fresh id]->moveBatch->tryDropEmptyChunks) / real RunCycle (<=2 per case, started compactor, deadline then Stop()) / GetState->LoadState / GetState->Close->reopen->LoadState / capture (GetState, the value is held together with a deep copy, its gob encoding and the model's id->slot map; also generated right after the prefill frees, before or after the sweep) / restore (only after a capture: gob round trip of the held value, Close, reopen on the same files, LoadState; capture-time ids must map to their capture-time slots, pairwise distinct and absent from the restored free list; ids never freed or moved since the capture read their last pattern, the others are re-written; then fresh ids drain the restored free list +2 and must never get a capture-time id's slot; the fresh ids stay or are freed again); then a drain (fresh allocs until every free slot was handed out again) and a final close/reopen; oracle after every step: every live id reads its own pattern, live physical slots pairwise distinct, no live id in a missing/dropped chunk, the caller's node pointer aliases the current slot, a held captured ArenaState still equals its deep copy and its first gob encoding; non-trivial = live ids reached >=3 chunks AND a freed slot was reused AND (a vector was relocated OR the arena was reopened mid-history)"
 
 func TestVerif_C18_arena(t *testing.T) {
 	c18Quiet()
